@@ -73,6 +73,19 @@ CHECKS["C14"] = {
     "technique": "TLA+ spec + TLC-generated behaviours replayed into two implementations (differential, bit for bit); TLC-derived shared mappings replayed",
 }
 
+CHECKS["C19"] = {
+    "text": "spec/Coord.tla models every container kind x stored dimension (arrays/slices/vecs of Coor2D/3D/4D/Coor32, height/epoch adapters, user sets and user tuples through the trait defaults) as a store with one action per writing call; TLC checks write-then-read round trips, missing dimensions (0 / NaN / adapter values), NaN on out-of-range element access, frame conditions, and agreement of the in-place store with a last-writer-wins reference; element-wise arithmetic over exact quarters, NaN and infinities. spec/Angular.tla keeps angles as sign + degrees + milli-arc-seconds and defines DMS, DM, ISO-6709 DDDMM.mmm / DDDMMSS.sss encoders/decoders by digit groups and normalisation by integer modulo; TLC checks mutual inverses, well-formed groups across every carry, sign survival below 1 degree, a carry odometer against the encoders, monotonicity, and normalisation equivalence/range. Every derived case is replayed into the library (storage bit for bit, arithmetic exact, angles within 1e-9 degrees).",
+    "design_ref": "DESIGN.md §5.19",
+    "note": "quick: MaxOps 2, 15 000 angles; thorough: MaxOps 2-3, 343 k angles (arc-seconds to +-10 degrees and around 180, every arc-minute and every degree/minute carry neighbourhood to +-720, seeded random angles). Adapters only over the set dimensions their documentation describes; container-index overflow, hypot, operator counts not compared; an encoder result whose minutes/seconds group reads 60 is judged by the angle it denotes.",
+    "technique": "TLA+ specs + TLC exhaustive enumeration; TLC-derived cases replayed into the public coordinate/angular API and the dm/dms operators",
+}
+CHECKS["C20"] = {
+    "text": "spec/Kp.tla models kp as a state machine (reader over the file arguments and stdin, skipping of blank lines and comments, 1-4 columns with defaults 0/0/0/NaN or -z/-t, sexagesimal notation, batcher with the batch size as a constant, transformer fwd/--inv/--roundtrip, formatter -d/-D, exit status). TLC checks, for every enumerated shape and for B = 3 and 4/5: one output line per coordinate line in input order, nothing lost or duplicated at any step, output identical to the chunk-wise program for every chunk size and independent of the split over files, a batch is never transformed empty, empty input ends normally without output, refused operation / missing file end with an error. Every shape is instantiated with the real batch size 25000, run through the kp binary built from the working tree, and stdout is compared line by line with the library's in-process result for the tuple the specification assigns to that line, together with exit status and stderr.",
+    "design_ref": "DESIGN.md §5.20",
+    "note": "Shapes: coordinate counts k*25000+r (k 0..2, r in {0,1,24999}), blank/comment lines in every gap relative to a batch boundary, splits over 1-3 files and stdin at every item position, 192+12 option sets, 8 column/notation mixtures, 3 refused operations, missing file at every argument position; quick 393, thorough 3945 shapes. The library is the numeric oracle (addone, helmert translation, noop compared to the digit; geo:in|utm within 2.5 units of the last place). Not compared: output without -d or -D (line count only), an element present in the input while -z/-t is given, sign of roundtrip residuals, stdout of failing runs, more than 4 columns.",
+    "technique": "TLA+ spec + TLC exhaustive enumeration of shapes; shapes scaled to the real batch size and replayed through the real binary with the library in-process as oracle",
+}
+
 _claimed = set(CHECKS)
 _NA_FIXED = {
     "C05": NA_REASON_NUMERIC,
